@@ -365,6 +365,27 @@ def native_long_lists(chk, n):
     chk.sample({'long member lists': 'all %d lists of %d members over the sizes %r, alternating between the two detectors' % (len(lists), n, sorted(tys))})
 
 
+def native_same_names(chk):
+    """struct (and variable) names are unique per SCOPE, not per file: the same struct name in two contracts / at file level and in a contract, the
+    same variable names in two contracts -- every one of them is judged on its own"""
+    packable, tight = 'uint128 a; uint256 b; uint128 c;', 'uint128 a; uint128 c; uint256 b;'
+    cases = [('two contracts, both packable', 'contract A { struct Position { %s } }\ncontract B { struct Position { %s } }\n' % (packable, packable), 'pack_struct_variables', 2),
+             ('file level and contract, both packable', 'struct Position { %s }\ncontract B { struct Position { %s } }\n' % (packable, packable), 'pack_struct_variables', 2),
+             ('three scopes, the middle one tight', 'struct Position { %s }\ncontract A { struct Position { %s } }\nlibrary L { struct Position { %s } }\n' % (packable, tight, packable), 'pack_struct_variables', 2),
+             ('two contracts with the same variable names, both packable', 'contract A { %s }\ncontract B { %s }\n' % (packable, packable), 'pack_storage_variables', 2),
+             ('two contracts with the same variable names, the first tight', 'contract A { %s }\ncontract B { %s }\n' % (tight, packable), 'pack_storage_variables', 1)]
+    for what, body_, det, want in cases:
+        text = 'pragma solidity 0.8.16;\n' + body_
+        nat = chk.native.run([['detect', det, chk.native.file(text)]])[0]
+        chk.validated += 1
+        got = len([x for x in nat[1].split(',') if x]) if nat[0] == 'OK' else None
+        if got != want:
+            chk.violation('%s:same-names' % det, '%s on %s: %s definitions reported, %d can be packed' % (det, what, got if got is not None else nat, want),
+                          {'job': 'detect', 'detector': det, 'source': text, 'observed': nat})
+        else:
+            chk.ok()
+
+
 def concretize_widths(v, m):
     """evaluate the symbolic width parameters of Type::Uint/Int/Bytes under the model"""
     from ..engine import BoxV, Tuple
@@ -437,6 +458,7 @@ def body(chk):
     chk.parallel(lambda c, it: check_pack_detector(c, *it), cases)
     for n_ in ((5,) if chk.quick else (5, 6)):
         native_long_lists(chk, n_)
+    native_same_names(chk)
     kani_cross_check(chk)
 
 
